@@ -33,6 +33,18 @@ CHECKS = {
  'C33': (['asan'], 'history monitor: sieve call histories replayed against an Eratosthenes model, ASan/UBSan on the segment buffer; exhaustive short histories + random long ones around segment boundaries',
          'Each case is a history of generate_primes / iterator / clear / set_sieve_size / set_clear calls from a forced known state; every output is compared with the reference prime list.',
          'set_sieve_size(0) excluded; limits up to ~1.1e6.', 'DESIGN.md 3/C33'),
+ 'C23': (['asan'], 'event-log monitor vs coefficient-list arithmetic mod p; factorisations judged by defining relations (monic, brute-force irreducible, multiply back), sampled repeatedly because the factoriser is randomised',
+         'Triples of GF(p) polynomials (enumerated for tiny p/degree, random beyond, unreduced constructor inputs, zero operands) run a battery of ~35 operations; every result is compared with reference arithmetic.',
+         'Irreducibility brute force is bounded (larger factors only checked for monic + multiply back).', 'DESIGN.md 3/C23'),
+ 'C32': (['asan'], 'event-log monitor vs brute-force definitions in pure Python ints on bounded ranges + identity checks on random 64-256-bit arguments',
+         'Every listed number-theoretic function is called on bounded argument ranges (complete in the thorough tier) and judged against its definition computed by exhaustive search; large arguments are judged by checkable identities.',
+         'Probabilistic factor methods (Pollard) may legitimately report failure; they are judged only for never returning a wrong factor.', 'DESIGN.md 3/C32'),
+ 'C38': (['asan'], 'event-log monitor: exactness of the returned weights on the whole monomial basis over Fractions (symbolic grids via mpmath at random points)',
+         'Grids of distinct rationals (exhaustive over {-2..2} up to size 4, random up to size 9, clustered, unsorted) and symbolic grids; for every order k and monomial x^j the weighted sum must equal the exact derivative.',
+         'Exactness on the monomial basis is equivalent to exactness on all polynomials of degree < grid size.', 'DESIGN.md 3/C38'),
+ 'C46': (['asan'], 'event-log monitor vs brute-force Hilbert basis (enumeration inside the Pottier bound) + structural checks (solution, minimal, no duplicates)',
+         'All small integer matrices in the stated shapes/ranges (complete in thorough) and random larger ones; the returned set must equal the brute-force set of minimal non-negative solutions.',
+         'Cases whose Pottier box exceeds the enumeration cap get the structural checks only (counted in evidence).', 'DESIGN.md 3/C46'),
 }
 
 def main():
